@@ -103,7 +103,7 @@ def run_programs(v, wd, exe, progs, tag, focus, read=None, jobs=5, batch_events=
     raw = os.path.join(wd, f"{tag}.raw.ndjson")
     # supervised: a writer or reader call that never returns, or that takes the process down (allocation cap, stack
     # overflow), is attributed to the program in progress and reported; the run continues behind it
-    aborts = vlib.harness_supervised(exe, ["e57-run", "--progs", pp], raw, len(progs), stall=40)
+    aborts = vlib.harness_supervised(exe, ["e57-run", "--progs", pp], raw, len(progs), stall=120)
     vlib.drop_aborted_runs(raw, {a[0] for a in aborts})
     for idx, kind, err in aborts:
         rp = os.path.join(wd, "replay", f"{tag}_abort_{idx}.json"); os.makedirs(os.path.dirname(rp), exist_ok=True)
